@@ -45,6 +45,10 @@ def fault_catalogue():
     out.append(("nonjson-500", {"status": 500, "body": "<html>oops</html>", "ctype": "text/html"}, 1))
     out.append(("empty-404", {"status": 404, "body": "", "ctype": "text/plain"}, 1))
     out.append(("drop", {"drop": True}, 1))
+    # redirections (mockca `redirect` answers): a GET follows them itself, one rate-limited request at a time;
+    # to a POST a 3xx answer is an error answer and nothing is sent to the Location
+    out.append(("redirect-302", {"redirect": 302, "hops": 2, "to": "rel"}, 1))
+    out.append(("redirect-307", {"redirect": 307, "hops": 1, "to": "abs"}, 1))
     out.append(("2xx-invalid-nonce", {"process": True, "nonce": "invalid"}, 1))
     out.append(("2xx-no-nonce", {"process": True, "nonce": "none"}, 1))
     out.append(("2xx-not-json", {"status": 200, "body": "not json at all", "ctype": "application/json"}, 1))
